@@ -31,6 +31,11 @@ pub fn fault_classes() -> Vec<(&'static str, E)> {
         ("unknown-function", call("c10nofun", vec![E::Int(1)])),
         ("unknown-method-object", mcall(obj(), "nometh", vec![])),
         ("unknown-method-null", mcall(E::Null, "nometh", vec![E::Int(1)])),
+        // names that null / integers DO understand, on an object whose chain ends in null
+        ("object-equals-without-method", bin("==", obj(), E::Int(1))),
+        ("object-unequal-without-method", bin("!=", E::Object(Some(bx(obj())), vec![]), E::Null)),
+        ("object-eq-feeny-without-method", mcall(var("c10o"), "eq", vec![var("c10o")])),
+        ("object-plus-without-method", bin("+", var("c10o"), E::Int(1))),
         ("unknown-method-int", mcall(E::Int(1), "nometh", vec![E::Int(2)])),
         ("unknown-method-array", mcall(var("c10a"), "nometh", vec![])),
         ("unknown-field-read", field(obj(), "nofield")),
@@ -281,9 +286,12 @@ fn injection_campaign(tape: &[u8], ctx: &mut Ctx, run: &mut Runner) -> Judged {
     let sizes = list_sizes(&mut base.clone());
     let classes = fault_classes();
     // every statement position x every fault class, thinned to a bound per base program
+    // faults mention the prelude's definitions: at the top level they are injected only after it
+    // (a global read before its `let` is outside the fragment)
+    let first_top = base.iter().position(|e| matches!(e, E::Let(n, _) if n == "c10a")).map(|i| i + 1).unwrap_or(0);
     let mut all: Vec<(usize, usize, usize)> = vec![];
     for (li, n) in sizes.iter().enumerate() {
-        for pos in 0..=*n {
+        for pos in (if li == 0 { first_top } else { 0 })..=*n {
             for ci in 0..classes.len() {
                 all.push((li, pos, ci));
             }
@@ -662,7 +670,7 @@ impl Property for C10 {
         "C10"
     }
     fn rule(&self) -> String {
-        "cases, all on the real binaries (release; debug for a sample): (a) base programs from the typed generator that succeed per the reference semantics, with a marker print before every statement of every statement list (top level, blocks, function, method and loop bodies); one fault of each of 37 classes injected at every statement position (thinned to a bound per base program, counts reported); oracle = reference semantics: stdout exactly the output up to the fault, non-zero non-signal exit, stderr non-empty; un-injected base: exit 0, empty stderr, exact stdout; (b) token-level mutations of rendered programs (delete/duplicate/swap/insert tokens, unbalanced brackets, unterminated string/comment, bad escape, out-of-range literal, stray bytes incl. invalid UTF-8): rejected by the in-process parser => exit non-zero, no signal, empty stdout, diagnostic; (c) heap cycles of every length 1..64 (+100, 1000; thorough 10^4) through arrays, fields and both, acyclic chains of 10/100/1000 links through elements, fields and parents (print and dispatch, exact output), FML recursion depth 10/10^3/10^5 (functions and methods), source nesting 50/100/150/200 of 8 constructs: never a signal. non-trivial: the injected fault is reached after >=1 marker, or the source is rejected, or a shape case; distinct by source".into()
+        "cases, all on the real binaries (release; debug for a sample): (a) base programs from the typed generator that succeed per the reference semantics, with a marker print before every statement of every statement list (top level, blocks, function, method and loop bodies); one fault of each of 41 classes injected at every statement position (thinned to a bound per base program, counts reported); oracle = reference semantics: stdout exactly the output up to the fault, non-zero non-signal exit, stderr non-empty; un-injected base: exit 0, empty stderr, exact stdout; (b) token-level mutations of rendered programs (delete/duplicate/swap/insert tokens, unbalanced brackets, unterminated string/comment, bad escape, out-of-range literal, stray bytes incl. invalid UTF-8): rejected by the in-process parser => exit non-zero, no signal, empty stdout, diagnostic; (c) heap cycles of every length 1..64 (+100, 1000; thorough 10^4) through arrays, fields and both, acyclic chains of 10/100/1000 links through elements, fields and parents (print and dispatch, exact output), FML recursion depth 10/10^3/10^5 (functions and methods), source nesting 50/100/150/200 of 8 constructs: never a signal. non-trivial: the injected fault is reached after >=1 marker, or the source is rejected, or a shape case; distinct by source".into()
     }
     fn assumptions(&self) -> Vec<String> {
         vec![
